@@ -1,4 +1,7 @@
-"""C11 — session machine check (see harness/sess_checks.py, Model/Session.lean, Props/C11.lean)."""
+"""C11 — session machine check (see harness/sess_checks.py, Model/Session.lean, Props/C11.lean, Props/C11Trace.lean) and the
+connector scenarios of harness/login_app.py."""
+import json
+
 import sess_checks
 
 DRIVER = 'drv_C05'
@@ -10,4 +13,10 @@ def run(ctx):
 
 
 def replay(ctx, path):
+    r = json.load(open(path))
+    rep = r.get('replay') or (r.get('no_longer_checks') or [{}])[-1].get('case') or r
+    if isinstance(rep, dict) and 'login_app' in rep:
+        import login_app
+        login_app.replay(ctx, rep)
+        return
     sess_checks.replay_family(ctx, 'C11', path)
